@@ -5,7 +5,7 @@ prop=$1; patch=$(readlink -f "$2"); tier=${3:-quick}; part=${4:-}
 d=$(mktemp -d /tmp/mrepo.XXXX)
 rsync -a --exclude .git /repo/ $d/
 ( cd $d && patch -p1 -s -F3 < "$patch" ) || { echo "PATCH FAILED"; rm -rf $d; exit 3; }
-cd /verif && VERIF_REPO=$d VERIF_REPLAY_DIR=/tmp/mut-replays ./check $prop $tier $part 2>&1 | grep -E "VIOLATION|class:|detail:|KNOWN|vrun:|runs=" | cut -c1-400
+cd /verif && VERIF_REPO=$d VERIF_REPLAY_DIR=/tmp/mut-replays ./check $prop $tier $part 2>&1 | grep -aE "VIOLATION|class:|detail:|KNOWN|vrun:|runs=" | cut -c1-400
 rc=${PIPESTATUS[0]}
 rm -rf $d
 exit $rc
